@@ -227,6 +227,7 @@ def unit_factor_axioms(is_unit):
     return ax
 
 
+UNIT_PRED = [None]  # predicate on z3 terms: "this factor lies in [0,1)"
 OPAQUE_MUL = [False]  # when set, symbolic*symbolic real products become a commutative uninterpreted function
 
 
@@ -237,6 +238,12 @@ def _f_mul(a, b):
             ra, rb = rb, ra
         app = _MULC(ra, rb)
         MULC_APPS.append((ra, rb, app))
+        if UNIT_PRED[0] is not None:  # eager bounds for products with a factor known to lie in [0,1)
+            from . import explore
+
+            for t_, o_ in ((ra, rb), (rb, ra)):
+                if UNIT_PRED[0](t_):
+                    explore.EXP.assume(z3.If(o_ > 0, z3.And(app >= 0, app < o_, z3.Implies(t_ == 0, app == 0)), z3.If(o_ < 0, z3.And(app <= 0, app > o_, z3.Implies(t_ == 0, app == 0)), app == 0)))
         return app
     if _is_bool_like(a) and is_sym(a):
         return s_where(a, b, 0.0 if _is_float_like(b) else 0)
@@ -531,7 +538,13 @@ def s_ceil(a):
 def s_round(a):
     if not is_sym(a):
         return _pyfloat(round(a))
-    raise Unsupported("round on symbolic")
+    if z3.is_int(a):
+        return a
+    # torch.round: half to even
+    f = z3.ToInt(a)
+    fr = a - z3.ToReal(f)
+    half = z3.RealVal("1/2")
+    return z3.ToReal(z3.If(fr < half, f, z3.If(fr > half, f + 1, z3.If(f % 2 == 0, f, f + 1))))
 
 
 def select(idx, vals, name="index"):
